@@ -56,13 +56,19 @@ REQUIRED_COUNTERS = {
               "model_forward_compared": 280, "model_gradient_compared": 40, "info_passthrough_checked": 170,
               "assembly_schedule_checked": 130, "refusal_observed": 25, "history_forward_compared": 180,
               "input_unchanged_checked": 220, "nonfloat_variant_levels_checked": 900, "nonfloat_variant_steady_checked": 60,
-              "same_length_offnode_discriminating": 90, "near_final_time_discriminating": 10, "second_object_interleaved": 100},
+              "same_length_offnode_discriminating": 90, "near_final_time_discriminating": 10, "second_object_interleaved": 100,
+              "single_point_single_time_checked": 120, "single_point_on_node_checked": 25, "single_point_off_node_checked": 25,
+              "single_point_final_time_checked": 20, "single_point_interior_time_checked": 25, "single_point_with_map_checked": 30,
+              "single_point_without_map_checked": 18},
     "thorough": {"steady_residual_checked": 1700, "euler_levels_checked": 25000, "be_solver_systems_checked": 18000,
                  "observation_compared": 4000, "coinciding_points_checked": 80000, "polynomial_reproduction_checked": 2800,
                  "model_forward_compared": 4500, "model_gradient_compared": 600, "info_passthrough_checked": 3400,
                  "assembly_schedule_checked": 2500, "refusal_observed": 500, "history_forward_compared": 1400,
                  "input_unchanged_checked": 1800, "nonfloat_variant_levels_checked": 18000, "nonfloat_variant_steady_checked": 1200,
-                 "same_length_offnode_discriminating": 1500, "near_final_time_discriminating": 200, "second_object_interleaved": 1800},
+                 "same_length_offnode_discriminating": 1500, "near_final_time_discriminating": 200, "second_object_interleaved": 1800,
+                 "single_point_single_time_checked": 700, "single_point_on_node_checked": 150, "single_point_off_node_checked": 150,
+                 "single_point_final_time_checked": 120, "single_point_interior_time_checked": 150, "single_point_with_map_checked": 180,
+                 "single_point_without_map_checked": 100},
 }
 BUDGET_S = {"quick": 240.0, "thorough": 1500.0}
 
@@ -79,6 +85,8 @@ GRIDS = ("none", "sol_only", "equal_copy", "subset", "offnode", "offnode_samelen
 # perm_full / reversed : all solution nodes in another order (sensor numbering); repeated : same length, some nodes twice
 # (sorted); subset_perm : some nodes in another order.  Expected: the solution at the observation nodes IN THE ORDER GIVEN.
 UNSORTED_GRIDS = ("perm_full", "reversed", "subset_perm")
+SINGLE_GRIDS = ("single_node", "single_off")          # one observation point, on a node / between nodes
+SINGLE_TOBS = ("final", "explicit_final", "single_mid_node", "single_off_time", "near_final")
 # near_far : same length as grid_sol, nodes shifted by 1e-3..0.4 of a spacing on a grid with coordinates ~1e3..1e4 and
 #            spacing 1e-2..1e-1;  near_tiny : same length, unit-scale grid, shifts ~1e-6 of the coordinate (some nodes kept)
 STEADY_GRIDS = GRIDS
@@ -143,6 +151,24 @@ def cases(tier, seed):
                                         rg.choice(("fresh", "fresh", "reassemble", "regrid_obs", "regrid_sol", "switch_method")), "rep": rep,
                                         "dtype": TIME_DTYPES[(i + i // len(TIME_DTYPES)) % len(TIME_DTYPES)]})
                             i += 1
+    # ---- one observation point at one observation time (on / off node, final / interior time, with / without a map)
+    j = 0
+    for rep in range({"quick": 1, "thorough": 6}[tier]):
+        for grid in SINGLE_GRIDS:
+            for tobs in SINGLE_TOBS:
+                for mp in MAPS:
+                    for method in METHODS:
+                        out.append({"kind": "time", "form": TIME_FORMS[j % 3], "fmt": TIME_FMTS[(j // 3) % 3], "method": method,
+                                    "solver": "own" if method == "forward_euler" else ("own", "tuple3", "default")[j % 3], "tgrid": ("nonuniform", "uniform", "two_phase")[j % 3],
+                                    "grid": grid, "tobs": tobs, "map": mp, "hist": "fresh", "dtype": "float", "rep": rep, "single": True})
+                        j += 1
+                    out.append({"kind": "observe", "pde": "time", "grid": grid, "tobs": tobs, "map": mp if mp != "pick" else "none",
+                                "tgrid": ("uniform", "nonuniform", "two_phase")[j % 3], "rep": rep, "single": True})
+                for inp in ("ndarray", "cuqiarray", "samples", "funvals"):
+                    out.append({"kind": "model", "pde": "time", "form": TIME_FORMS[j % 3], "geom": ("int", "continuous1d", "harness_exp")[j % 3], "input": inp,
+                                "jac": "jacobian", "grid": grid, "map": ("none", "square", "matrix")[j % 3], "method": METHODS[j % 2],
+                                "tgrid": "nonuniform", "tobs": tobs, "rep": rep, "single": True})
+                    j += 1
     # ---- black-box observation of polynomial solutions
     for rep in range(reps[2]):
         for grid in STEADY_GRIDS:
@@ -185,7 +211,7 @@ def cases(tier, seed):
     for rep in range({"quick": 1, "thorough": 8}[tier]):
         for prob in ("Heat1D", "Poisson1D"):
             for field in ("none", "step", "mapped"):
-                for og in ("none", "subset"):
+                for og in ("none", "subset", "single"):
                     out.append({"kind": "shipped", "problem": prob, "field": field, "obsgrid": og, "rep": rep})
     # ---- misc
     for sp in ("Forward_Euler", "BACKWARD_EULER", "forward_Euler", "Backward_euler", "rk4", "euler"):
@@ -321,6 +347,10 @@ def _mk_obs_grid(rs, x, kind):
         return None
     if kind == "equal_copy":
         return x.copy()
+    if kind == "single_node":
+        return np.asarray(x, dtype=float)[[int(rs.randint(0, n))]].copy()
+    if kind == "single_off":
+        return np.array([float(rs.uniform(x[0], x[-1]))])
     if kind in ("perm_full", "reversed"):
         idx = np.arange(n)[::-1] if kind == "reversed" else rs.permutation(n)
         if np.array_equal(idx, np.arange(n)):
@@ -399,6 +429,9 @@ def _mk_time_obs(rs, ts, kind):
         return kind, ts.copy()
     if kind == "explicit_final":
         return np.array([ts[-1]]), ts[-1:].copy()
+    if kind == "single_off_time":
+        v = np.array([float(rs.uniform(ts[0], ts[-1]))])
+        return v, v.copy()
     if kind in ("on_nodes_perm", "repeated_times"):
         k = int(rs.randint(2, max(3, nt)))
         idx = np.sort(rs.choice(nt, min(k, nt), replace=False))
@@ -659,6 +692,13 @@ def _ref_observe_steady(u, grid_sol, grid_obs, ref_map):
     return pre, ref_map(pre), idx
 
 
+def _drop_time_axis(out):
+    """Shape convention of a time-dependent observation: one entry per observation point, and per observation time when
+    several times are observed; a single observation time drops the time axis.  One point at one time is therefore a
+    vector of length one (as long as the range geometry's par_dim), never a 0-d array."""
+    return np.atleast_1d(np.asarray(out).squeeze())
+
+
 def _ref_observe_time(U, grid_sol, grid_obs, ts, tobs, ref_map):
     grids_equal = grid_sol is None or grid_obs is None or (len(grid_sol) == len(grid_obs) and np.array_equal(grid_sol, grid_obs))
     direct = grids_equal and len(tobs) == 1 and tobs[0] == ts[-1]
@@ -673,7 +713,7 @@ def _ref_observe_time(U, grid_sol, grid_obs, ts, tobs, ref_map):
         out = ref_map(pre)
     out = np.asarray(out)
     if len(tobs) == 1:
-        out = out.squeeze()
+        out = _drop_time_axis(out)
     return pre, out, direct
 
 
@@ -1034,6 +1074,11 @@ def _judge_time_observation(ctx, S, U, obs, cfg):
             seen = seen.reshape(pre.shape) if seen.size == pre.size else seen
     _cmp(ctx, obs, exp, 1e-9, "observation_mismatch", {**cfg, "stage": "final"}, "observe() vs reference restriction/interpolation followed by the map",
          scale=max(1.0, float(np.max(np.abs(exp))) if np.size(exp) else 1.0, sc if rec_map is None else 1.0))
+    if len(S["tobs"]) == 1 and S["grid_obs"] is not None and len(S["grid_obs"]) == 1:
+        ctx.count("single_point_single_time_checked")
+        ctx.count("single_point_with_map_checked" if rec_map is not None else "single_point_without_map_checked")
+        ctx.count("single_point_on_node_checked" if R.restriction_indices(S["x"], S["grid_obs"])[0] is not None else "single_point_off_node_checked")
+        ctx.count("single_point_final_time_checked" if S["tobs"][0] == S["ts"][-1] else "single_point_interior_time_checked")
     if seen is not None and seen.shape == pre.shape:
         if direct:
             ctx.count("coinciding_points_checked", int(seen.size))
@@ -1227,8 +1272,11 @@ def _run_observe(case, ctx, rs):
         direct = (gk in ("none", "sol_only", "equal_copy")) and len(tobs) == 1 and tobs[0] == ts[-1]
         exp = np.asarray(ref_map(pre[:, -1] if direct else pre))
         if len(tobs) == 1:
-            exp = exp.squeeze()
+            exp = _drop_time_axis(exp)
         ctx.count("polynomial_reproduction_checked")
+        if exp.shape == (1,) and len(xo) == 1:
+            ctx.count("single_point_single_time_checked")
+            ctx.count("single_point_polynomial_checked")
         _cmp(ctx, obs, exp, 1e-9, "polynomial_not_reproduced", {**cfg, "degree": f"{dx},{dtt}"}, f"bi-degree ({dx},{dtt}) polynomial solution observed at the observation grid/times",
              scale=max(1.0, float(np.max(np.abs(exp))) if exp.size else 1.0, float(np.abs(U).max())))
         judged = True
@@ -1551,6 +1599,9 @@ def _run_shipped(case, ctx, rs):
     if case["obsgrid"] == "subset":
         sel = np.sort(rs.choice(dim - 1, int(rs.randint(2, dim - 2)), replace=False))
         kw.update(observation_grid_map=lambda g, sel=sel: g[sel[sel < len(g)]])
+    elif case["obsgrid"] == "single":
+        one = int(rs.randint(0, dim - 1))
+        kw.update(observation_grid_map=lambda g, one=one: g[[min(one, len(g) - 1)]])
     positive = prob == "Poisson1D" and case["field"] != "mapped"
     if prob == "Heat1D":
         endpoint = float(rs.choice([1.0, 2.0]))
@@ -1568,6 +1619,13 @@ def _run_shipped(case, ctx, rs):
         fun = np.asarray(model.domain_geometry.par2fun(p), dtype=float)
         y = np.asarray(model.forward(p), dtype=float)
         ident = lambda u: u
+        ctx.count("model_output_dimension_checked")
+        if y.shape != (model.range_dim,):
+            ctx.violation("model_forward_mismatch_shape", {**cfg, "stage": "range_dim"}, detail=f"model output shape {y.shape}, range geometry dimension {model.range_dim}")
+        kind_l, val_l = core.outcome(tp.likelihood.logd, p, refusal=())
+        ctx.count("shipped_likelihood_evaluated")
+        if kind_l != "value" or not np.isfinite(float(np.ravel(val_l)[0])):
+            ctx.violation("likelihood_unusable", cfg, detail=f"likelihood.logd on the problem's own data: {type(val_l).__name__}: {core.short(str(val_l), 200)}")
         if prob == "Heat1D":
             pde.assemble(fun)
             f0 = len(rec.calls)
